@@ -186,6 +186,17 @@ func main() {
 		fmt.Println(out)
 		inconclusive(id, "the monitor does not build against the repository's current tree")
 	}
+	if cfg.PlainToo && cfg.Race {
+		a := []string{"build"}
+		if mf := altModfile(work); mf != "" {
+			a = append(a, "-modfile="+mf)
+		}
+		a = append(a, "-overlay", ov.OverlayPath, "-o", vmon+".plain", "./cmd/vmon")
+		if out, err := runCmd(filepath.Join(verifRoot, "harness"), env, "go", a...); err != nil {
+			fmt.Println(out)
+			inconclusive(id, "the monitor does not build without the race detector against the repository's current tree")
+		}
+	}
 	if cfg.PreludeRace && !cfg.Race {
 		a := []string{"build", "-race"}
 		if mf := altModfile(work); mf != "" {
